@@ -1,3 +1,5 @@
+import math
+
 import torch
 from torch import Tensor
 from torch.distributions import constraints
@@ -426,6 +428,6 @@ class PiecewiseConstantBirthDeath(Distribution):
             log_p += (N * stays.log()).sum(-1)
 
         if self.removal_probability is not None:
-            log_p += torch.tensor(2.0).log() * (taxa_shape[-1] - 1)
+            log_p += math.log(2.0) * (taxa_shape[-1] - 1)
 
         return log_p
